@@ -238,6 +238,18 @@ def search(ctx):
         seen.add(('path', tuple(gen.seg_key(s) for s in path.asSegments())))
         if len(samples) < 2: samples.append({'path': path_json(path), 'simple_ccw': simple})
         if f: fails.append({'class': 'C10-path', 'what': f[0], 'input': {'path': path_json(path), 'simple_ccw': simple, 'seed2': seed2}, 'observed': f, 'expected': 'C10 closed-path clauses'})
+    # TrueType-style rounded shapes: quadratics whose two handles are exactly axis-aligned (one vertical, one horizontal), radius 150..2500
+    for _ in range(ctx.n(12, 200)):
+        R = float(rng.randint(150, 2500)); cx, cy = float(rng.randint(-500, 500)), float(rng.randint(-500, 500))
+        sx = rng.choice([1.0, 0.6]); sy = rng.choice([1.0, 1.4])
+        q = [((1, 0), (1, 1), (0, 1)), ((0, 1), (-1, 1), (-1, 0)), ((-1, 0), (-1, -1), (0, -1)), ((0, -1), (1, -1), (1, 0))]
+        segs = [QuadraticBezier(*[P(cx + R * sx * x, cy + R * sy * y) for x, y in tri]) for tri in q]
+        path = BezierPath.fromSegments(segs)
+        ev += 1; dist['path/tt-rounded'] = dist.get('path/tt-rounded', 0) + 1
+        seed2 = rng.randrange(1 << 30)
+        import random as _r2
+        f = check_path(path, True, _r2.Random(seed2))
+        if f: fails.append({'class': 'C10-path', 'what': f[0], 'input': {'path': path_json(path), 'simple_ccw': True, 'seed2': seed2}, 'observed': f, 'expected': 'C10 closed-path clauses'})
     # contours far from the origin: an error in WHERE the flattened polygon closes is multiplied by the distance from the origin
     for _ in range(ctx.n(25, 300)):
         w, h = rng.uniform(100, 400), rng.uniform(60, 200)
@@ -260,6 +272,16 @@ def search(ctx):
         f = check_shape(kind, a, b, o)
         seen.add((kind, a, b))
         if f: fails.append({'class': 'C10-shape', 'what': f[0], 'input': {'shape': kind, 'a': a, 'b': b, 'origin': None if o is None else [o.x, o.y]}, 'observed': f, 'expected': 'constructor areas'})
+    # path-level stale state: asking must not change later answers, and an in-place edit of a segment through the path's own
+    # segment list (or of its Point objects) must be seen by the next query
+    import gen as _gq
+    from beziers.point import Point as _PQ
+    for _ in range(ctx.n(25, 500)):
+        _segs = _gq.closed_contour(rng, ints=rng.random() < 0.3)
+        _qp = _PQ(_segs[0][0].x + rng.uniform(-150, 150), _segs[0][0].y + rng.uniform(-150, 150))
+        _ff = _gq.path_freshness(rng, _segs, {'signed_area': lambda p: p.signed_area, 'area': lambda p: p.area, 'direction': lambda p: p.direction}, closed=True, disturb=[lambda p: p.pointIsInside(_qp), lambda p: p.bounds(), lambda p: p.length, lambda p: p.area])
+        ev += 1; dist['stale-state/path'] = dist.get('stale-state/path', 0) + 1
+        if _ff: fails.append({'class': 'C10-stale-state', 'what': _ff[0], 'input': None, 'observed': _ff[:3], 'expected': 'the answers of a freshly built path with the same control points'})
     return {'evaluations': ev, 'distinct_nontrivial': len(seen), 'failures': fails, 'distribution': dist, 'samples': samples}
 
 
